@@ -1475,6 +1475,12 @@ class Interp:
             return self.call_method(ty, name, recv, args)
         if (None, name) in self.models:
             return self.models[(None, name)](self, recv, args)
+        if name == "into" and self.resolve_into and (isinstance(recv, str) or (is_sym(recv) and recv.sort() == z3.StringSort())) and self.call_type:
+            # `let key: T = (&s as &str).into()`: the loaded `impl From<&str> for T`
+            want = str(self.call_type).split("<")[0].split("::")[-1].strip()
+            for tr, fn in self.prog.trait_methods.get((want, "from"), []):
+                if tr.replace(" ", "") in ("From<&str>", "From<&'astr>", "From<String>"):
+                    return self._invoke(fn, [recv], self_ty=want)
         if name == "into" and self.resolve_into and isinstance(recv, Struct):
             # value.into(): the loaded `impl From<S> for T` with S = the value's type (the target named by the let / turbofish when several exist)
             cands = [(t, fn) for (t, m), lst in self.prog.trait_methods.items() if m == "from" for tr, fn in lst
